@@ -210,8 +210,9 @@ def run(ctx):
     for cpu in CPUS:
         for i, segs in enumerate(sh):
             for typ in TYPES:
-                exports = list(range(len(segs)))[: (i % 3)]
-                entry = 0 if i % 2 == 0 else None
+                h = sum((s >> 4) + s + n for s, n in segs)       # a function of the shape, so that both tiers pose the same case
+                exports = list(range(len(segs)))[: (h % 3)]
+                entry = 0 if (h // 3) % 2 == 0 else None
                 if q and (i + CPUS.index(cpu)) % 2 and typ not in ("hex", "srec"):
                     continue
                 jobs.append((cpu, segs, typ, exports, entry, (i % 2 == 0) or not q))
